@@ -229,6 +229,32 @@ impl<'a> Checker<'a> {
                 return false;
             }
         }
+        // the same block with full transaction objects, by number and by hash: the same objects, in the
+        // order of the hash list
+        {
+            let fn_ = d.inst.call("eth_getBlockByNumber", json!([nhex, true]));
+            let fh = d.inst.call("eth_getBlockByHash", json!([hash, true]));
+            self.rep.evaluations += 1;
+            let hashes_of = |r: &Resp| -> Option<Vec<String>> { r.ok().and_then(|b| b["transactions"].as_array().map(|a| a.iter().map(|t| t["hash"].as_str().unwrap_or("?").to_lowercase()).collect())) };
+            let want: Vec<String> = blk["transactions"].as_array().map(|a| a.iter().filter_map(|x| x.as_str().map(|s| s.to_lowercase())).collect()).unwrap_or_default();
+            let (a, b) = (hashes_of(&fn_), hashes_of(&fh));
+            if a.as_ref() != Some(&want) || b.as_ref() != Some(&want) {
+                self.fail(d, "full-transactions-differ-from-hash-list", format!("block {} lists {} transactions, with full objects it lists {:?} by number and {:?} by hash", n, want.len(), a.map(|x| x.len()), b.map(|x| x.len())), json!({"hash_list": want}));
+                return false;
+            }
+            if let (Some(x), Some(y)) = (fn_.ok(), fh.ok()) {
+                let (mut x, mut y) = (x.clone(), y.clone());
+                crate::obs::canon(&mut x);
+                crate::obs::canon(&mut y);
+                if x != y {
+                    self.fail(d, "hash-number-inversion", format!("block {} with full transactions fetched by its hash differs from the block fetched by number", n), json!({"by_number": x, "by_hash": y}));
+                    return false;
+                }
+            }
+            if want.len() > 0 && qty(&blk["gasUsed"]) == 0 {
+                self.rep.nontrivial("block-with-transactions-and-no-gas-used".to_string());
+            }
+        }
         // receipts handed to the indexer for this height
         let ops = d.chain.get(n as usize).cloned().unwrap_or_default();
         let resps = d.chain_resp.get(n as usize).cloned().unwrap_or_default();
